@@ -189,7 +189,7 @@ def parse_tlc(r):
     m = re.search(r"Invariant (\S+) is violated", out)
     if m:
         r.violated = m.group(1)
-    m2 = re.search(r"(Action property|Temporal properties|property) (\S+)? ?(is|were) violated", out)
+    m2 = re.search(r"(Action property|Temporal properties|Temporal property|property) (\S+)? ?(is|were|was) violated", out)
     if m2 and not r.violated:
         r.violated = m2.group(2) or "temporal"
     if "Error:" in out:
